@@ -212,6 +212,7 @@ func c02Run(t *testing.T, ops []string, o *Out) {
 			}
 			var n int
 			var err error
+			var ra interceptor.Attributes
 			done := make(chan struct{})
 			go func() {
 				defer close(done)
@@ -224,10 +225,18 @@ func c02Run(t *testing.T, ops []string, o *Out) {
 				switch what {
 				case "rtcp":
 					s.rtcpIn = data
-					n, _, err = s.rtcpR.Read(buf, interceptor.Attributes{})
+					n, ra, err = s.rtcpR.Read(buf, interceptor.Attributes{})
 				case "rtp":
 					s.rtpIn[ssrc] = data
-					n, _, err = s.readers[ssrc].Read(buf, interceptor.Attributes{})
+					n, ra, err = s.readers[ssrc].Read(buf, interceptor.Attributes{})
+				}
+				// the attributes a Read returns describe the bytes it returns (Props/C02Attrs.chain_coherent): what
+				// the parse cache answers for them is what a fresh parse answers
+				if err == nil && ra != nil && n >= 0 && n <= len(buf) {
+					if stale := c02Stale(what, ra, buf[:n]); stale != "" {
+						o.P("ATTR-STALE %s %s", what, stale)
+						n = -1
+					}
 				}
 			}()
 			synctest.Wait()
@@ -360,6 +369,43 @@ func c02Run(t *testing.T, ops []string, o *Out) {
 		}
 		_ = io.Discard
 	})
+}
+
+// c02Stale compares the parse cache of the returned attributes with a fresh parse of the returned bytes.
+func c02Stale(what string, ra interceptor.Attributes, b []byte) string {
+	if what == "rtp" {
+		var fresh rtp.Header
+		_, ferr := fresh.Unmarshal(b)
+		got, gerr := ra.GetRTPHeader(b)
+		switch {
+		case ferr != nil && gerr == nil:
+			return "a header is cached for bytes that do not parse"
+		case ferr == nil && gerr != nil:
+			return "error for bytes that parse"
+		case ferr == nil:
+			x, _ := fresh.Marshal()
+			y, _ := got.Marshal()
+			if hexs(x) != hexs(y) {
+				return fmt.Sprintf("cached %s fresh %s", hexs(y), hexs(x))
+			}
+		}
+		return ""
+	}
+	fresh, ferr := rtcp.Unmarshal(b)
+	got, gerr := ra.GetRTCPPackets(b)
+	switch {
+	case ferr != nil && gerr == nil:
+		return "packets are cached for bytes that do not parse"
+	case ferr == nil && gerr != nil:
+		return "error for bytes that parse"
+	case ferr == nil:
+		x, e1 := rtcp.Marshal(fresh)
+		y, e2 := rtcp.Marshal(got)
+		if (e1 == nil) != (e2 == nil) || hexs(x) != hexs(y) {
+			return fmt.Sprintf("cached %s fresh %s", hexs(y), hexs(x))
+		}
+	}
+	return ""
 }
 
 func (s *c02State) jitter() bool { return strings.Contains(s.kind, "jitter") }
